@@ -22,6 +22,18 @@ const FREE_LIST_END: u32 = (FREE_BIT - 1) | FREE_BIT;
 pub(crate) struct SlotIndex(u32);
 
 impl SlotIndex {
+    #[cfg(gecs_verif)]
+    #[doc(hidden)]
+    pub(crate) fn __verif_raw(raw: u32) -> Self {
+        Self(raw)
+    }
+
+    #[cfg(gecs_verif)]
+    #[doc(hidden)]
+    pub(crate) fn __verif_get(&self) -> u32 {
+        self.0
+    }
+
     /// Assigns this index to some non-free data index.
     /// This may be a reassignment of an already live slot.
     #[inline(always)]
@@ -87,6 +99,15 @@ pub struct Slot {
 }
 
 impl Slot {
+    #[cfg(gecs_verif)]
+    #[doc(hidden)]
+    pub(crate) fn __verif_raw(index: u32, version: u32) -> Self {
+        Self {
+            index: SlotIndex(index),
+            version: SlotVersion::new(std::num::NonZeroU32::new(version).unwrap()),
+        }
+    }
+
     pub(crate) fn populate_free_list(
         start: TrimmedIndex, // Index of where the unset section of the slot array begins
         slots: &mut [MaybeUninit<Slot>], // Complete slot array, including old slots
